@@ -343,6 +343,20 @@ Definition splitRing (r : ring) (isOuter : bool) (isMulti : pt -> bool) : res ri
 (** a too small ring is a point or a line; an empty ring is nothing at all (F7 repair) *)
 Definition asPointOrLine (r : ring) : list ring := match r with [] => [] | _ => [r] end.
 
+(** the loop after kmpDeduplicate: [for len > 1 && ring[0] == ring[len-1] { ring = ring[:len-1] }]
+    — the trailing vertices equal to the first one are dropped, the first one stays *)
+Fixpoint stripTrailing (a : pt) (t : list pt) : list pt :=
+  match t with
+  | [] => []
+  | b :: t' => match stripTrailing a t' with
+               | [] => if pt_eqb a b then [] else [b]
+               | s => b :: s
+               end
+  end.
+
+Definition trimClosing (r : ring) : ring :=
+  match r with [] => [] | a :: t => a :: stripTrailing a t end.
+
 Definition cleanupNewRing (newRing : ring) (isOuter : bool) (isMulti : pt -> bool) : res ringSets :=
   let n := length newRing in
   let r1 := match newRing, last_opt newRing with
@@ -351,7 +365,8 @@ Definition cleanupNewRing (newRing : ring) (isOuter : bool) (isMulti : pt -> boo
             end in
   if (length r1 <? 3)%nat then Ok (mkSets [] [] (asPointOrLine r1))
   else
-    do r2 <- kmpDeduplicate r1;
+    do r2' <- kmpDeduplicate r1;
+    let r2 := trimClosing r2' in
     if (length r2 <? 3)%nat then Ok (mkSets [] [] (asPointOrLine r2))
     else splitRing r2 isOuter isMulti.
 
